@@ -1,5 +1,9 @@
 import Req.Driver.Proto
 import Req.Pool.Cancel
+import Req.Pool.CancelPool
+import Req.Pool.CancelPoolLane
+import Req.Pool.CancelH2
+import Req.Pool.CancelErr
 /-!
 Driver lanes of C08.
 
@@ -12,6 +16,23 @@ Driver lanes of C08.
   injection point, cancel, explore EVERY maximal run of internal steps (then let a detached
   background dial finish and, if the wait ignores the context, let the timer fire), and answer
   with the observed outcome if the model allows it, else with the first outcome it does allow.
+* `c08snap <MaxConnsPerHost> <connsPerHost[k]> <connsPerHostWait[k] flags> <idleConnWait[k] flags> <idle conns>`
+  — one in-package sample of the real HTTP/1.1 pool for one connection key (queue flags front
+  first, `w` = still waiting, `d` = done, `-` = empty queue), judged by `CancelPool.Sample.verdict`
+  (`Props.C08Pool.sample_ok`: `ok` on every reachable model state): `ok | over-limit | stranded |
+  handoff-lost`.
+* `c08pool <MaxIdleConns> <MaxIdleConnsPerHost> <MaxConnsPerHost> <DisableKeepAlives> <keys> <wants> <conns> <op,op,…>`
+  — the forced-schedule lane: composite pool calls (`CancelPoolLane.MOp`) replayed on the pool
+  model; answer = per op `<return value>/<state dump>`, joined with `;`.
+* `c08h2cleanup <err> <sentHeaders> <sentEndStream> <peerClosed>` — `CancelH2.cleanupRule`.
+* `c08h2flow <connClosed> <bodyClaimed> <aborted> <ctxDone> <avail> <maxBytes> <maxFrame>` —
+  `CancelH2.flowDecision`.
+* `c08h2life <hasBody> <expect> <respNoBody> <trace> <kind> <obs>` — the HTTP/2 lifecycle model:
+  replay the trace (`ev:<Ev>`, `act:<Act>`, `settle` = run the internal steps to quiescence), cancel,
+  explore EVERY maximal internal run; answer = the observed outcome if the model reaches it, else
+  the first outcome it does reach.
+* `c08errclass <src> <wrappers>` — `CancelErr.rel` seen through the wrappers (`u`rl.Error,
+  `n`othingWrittenError, `r`eadFromServer, `b`roken conn; `-` = none): `c=<0|1> d=<0|1> t=<0|1>`.
 -/
 namespace Req.Driver.L.C08
 open Req.Proto Req.Cancel
@@ -69,8 +90,11 @@ def retryLoop (cfg : Cfg) : List Result → St → Nat → String
 
 def laneRetry : List String → String
   | [m, ks] =>
-    match m.toNat?, (ks.splitOn ",").mapM parseResult with
-    | some mr, some rs => retryLoop { stack := .h1, maxRetries := mr } rs {} 0
+    -- a negative MaxRetries means "retry without limit": on a finite script that is any limit
+    -- beyond the script's length
+    match m.toInt?, (ks.splitOn ",").mapM parseResult with
+    | some mr, some rs =>
+      retryLoop { stack := .h1, maxRetries := if mr < 0 then rs.length + 1 else mr.toNat } rs {} 0
     | _, _ => "bad-op"
   | _ => "bad-op"
 
@@ -214,7 +238,156 @@ def laneLife : List String → String
     | _, _, _, _, _, _, _, _, _ => "bad-op"
   | _ => "bad-op"
 
+def parseFlags (s : String) : Option (List Bool) :=
+  if s == "-" then some []
+  else s.toList.mapM fun c => if c == 'w' then some true else if c == 'd' then some false else none
+
+def laneSnap : List String → String
+  | [mx, cph, dw, iw, idle] =>
+    match mx.toInt?, cph.toNat?, parseFlags dw, parseFlags iw, idle.toNat? with
+    | some m, some c, some d, some i, some n =>
+      (Req.Pool.CancelPool.Sample.verdict ⟨m, c, d, i, n⟩).show
+    | _, _, _, _, _ => "bad-op"
+  | _ => "bad-op"
+
+def lanePool : List String → String
+  | [mi, mih, mc, dk, nk, nw, nc, ops] =>
+    match mi.toNat?, mih.toInt?, mc.toInt?, bit dk, nk.toNat?, nw.toNat?, nc.toNat?,
+          (if ops == "-" then some [] else (ops.splitOn ",").mapM Req.Pool.CancelPoolLane.parseOp) with
+    | some maxIdle, some maxIdleHost, some maxConns, some dka, some nKeys, some nWants, some nConns, some l =>
+      ";".intercalate (Req.Pool.CancelPoolLane.runLane ⟨maxIdle, maxIdleHost, maxConns, dka⟩ nKeys nWants nConns {} l)
+    | _, _, _, _, _, _, _, _ => "bad-op"
+  | _ => "bad-op"
+
+
+/-! ### HTTP/2 lifecycle lanes -/
+section H2
+open Req.CancelH2
+
+def parseWErr (s : String) : Option WErr :=
+  if s == "nil" then some .nil else if s == "canceled" then some (.ctx .canceled)
+  else if s == "deadline" then some (.ctx .deadline) else if s == "fromPeer" then some .fromPeer
+  else if s == "streamLocal" then some .streamLocal else if s == "other" then some .other else none
+
+def showCode : Code → String
+  | .cancel => "cancel" | .noError => "noError" | .local => "local"
+
+def laneH2Cleanup : List String → String
+  | [e, a, b, c] =>
+    match parseWErr e, bit a, bit b, bit c with
+    | some err, some sh, some se, some pc =>
+      "rst=" ++ (match cleanupRule ⟨err, sh, se, pc⟩ with | some c => showCode c | none => "none")
+    | _, _, _, _ => "bad-op"
+  | _ => "bad-op"
+
+def laneH2Flow : List String → String
+  | [a, b, c, d, av, mb, mf] =>
+    match bit a, bit b, bit c, bit d, av.toNat?, mb.toNat?, mf.toNat? with
+    | some cc, some cl, some ab, some cx, some avail, some maxBytes, some maxFrame =>
+      match flowDecision ⟨cc, cl, ab, cx, avail, maxBytes, maxFrame⟩ with
+      | .connClosed => "connClosed" | .stop => "stop" | .abortErr => "abortErr" | .ctxErr => "ctxErr"
+      | .take n => "take " ++ toString n | .wait => "wait"
+    | _, _, _, _, _, _, _ => "bad-op"
+  | _ => "bad-op"
+
+def parseH2Ev (s : String) : Option Req.CancelH2.Ev :=
+  if s == "hdrMuFree" then some .hdrMuFree else if s == "slotFree" then some .slotFree
+  else if s == "continue100" then some .continue100 else if s == "flowTake" then some .flowTake
+  else if s == "peerHeaders" then some .peerHeaders else if s == "peerEnd" then some .peerEnd
+  else if s == "peerRst" then some .peerRst else if s == "callerClose" then some .callerClose else none
+
+def h2ActName : Req.CancelH2.Act → String
+  | .wHdrMuCancel => "wHdrMuCancel" | .wSlotAbort => "wSlotAbort" | .wHeaders => "wHeaders"
+  | .wContCancel => "wContCancel" | .wReadChunk => "wReadChunk" | .wReadEOF => "wReadEOF"
+  | .wBodyStop => "wBodyStop" | .wFlowExit => "wFlowExit" | .wData => "wData"
+  | .wEndStream => "wEndStream" | .wPeerDone => "wPeerDone" | .wPeerAbort => "wPeerAbort"
+  | .wCleanupClaim => "wCleanupClaim" | .wCleanupClose => "wCleanupClose"
+  | .wCleanupFinish => "wCleanupFinish" | .rHeaders => "rHeaders" | .rAbort => "rAbort"
+  | .rCtx => "rCtx" | .rWaitBody => "rWaitBody" | .rWaitDone => "rWaitDone"
+  | .rHdrWaitDone => "rHdrWaitDone" | .closerRun => "closerRun"
+
+def parseH2Act (s : String) : Option Req.CancelH2.Act :=
+  Req.CancelH2.allActs.find? (fun a => h2ActName a == s)
+
+/-- one trace token applied to every state of the current set; `none` = the trace does not fit -/
+def h2Tok (ss : List Req.CancelH2.St) (tok : String) : Option (List Req.CancelH2.St) :=
+  if tok == "settle" then some (ss.flatMap (Req.CancelH2.finals 40))
+  else match tok.splitOn ":" with
+    | ["ev", n] => do
+      let e ← parseH2Ev n
+      ss.mapM fun s => if Req.CancelH2.evGuard s e then some (Req.CancelH2.evApply s e) else none
+    | ["act", n] => do
+      let a ← parseH2Act n
+      ss.mapM fun s => if Req.CancelH2.guard s a then some (Req.CancelH2.apply s a) else none
+    | _ => none
+
+def h2Class (kind : CtxErr) : Option WErr → String
+  | some (.ctx e) => if e == kind then (if kind == .canceled then "canceled" else "deadline") else "other"
+  | _ => "other"
+
+def h2Outcome (kind : CtxErr) (s t : Req.CancelH2.St) : String :=
+  let ret := match t.rpc with
+    | .returned .resp => "resp"
+    | .returned (.err e) => h2Class kind (some e)
+    | _ => "hung"
+  let pendingRead := s.rpc == .returned .resp && !s.respNoBody && !s.peerClosed
+  let read := if pendingRead then h2Class kind t.abort else "-"
+  let rst := if t.rsts.isEmpty then "-" else "+".intercalate (t.rsts.map showCode)
+  "ret=" ++ ret ++ ";read=" ++ read ++ ";closes=" ++ toString t.closes ++ ";rst=" ++ rst ++
+  ";data=" ++ toString (t.dataWrites - s.dataWrites) ++ ";rel=" ++ (if released t then "1" else "0")
+
+def laneH2Life : List String → String
+  | [hb, ex, nb, tr, kind, obs] =>
+    match bit hb, bit ex, bit nb with
+    | some hasBody, some expect, some respNoBody =>
+      let k : Option CtxErr := if kind == "canceled" then some .canceled
+        else if kind == "deadline" then some .deadline else none
+      let toks := if tr == "-" || tr == "" then [] else tr.splitOn ","
+      match k, toks.foldlM h2Tok [Req.CancelH2.init hasBody expect respNoBody] with
+      | some k, some ss =>
+        let outs := ss.flatMap fun s =>
+          let s0 := if Req.CancelH2.evGuard s (.cancel k) then Req.CancelH2.evApply s (.cancel k) else s
+          (Req.CancelH2.finals 40 s0).map (h2Outcome k s)
+        if outs.contains obs then obs
+        else match outs with
+          | o :: _ => o
+          | [] => "no-outcome"
+      | none, _ => "bad-op"
+      | _, none => "bad-trace"
+    | _, _, _ => "bad-op"
+  | _ => "bad-op"
+
+end H2
+
+def parseSrc (s : String) : Option Req.CancelErr.Src :=
+  if s == "ctxCanceled" then some .ctxCanceled else if s == "ctxDeadline" then some .ctxDeadline
+  else if s == "respHeaderTimeout" then some .respHeaderTimeout
+  else if s == "tlsHandshakeTimeout" then some .tlsHandshakeTimeout
+  else if s == "h2RespHeaderTimeout" then some .h2RespHeaderTimeout
+  else if s == "reqCanceled" then some .reqCanceled else if s == "reqCanceledConn" then some .reqCanceledConn
+  else if s == "serverClosedIdle" then some .serverClosedIdle else if s == "io" then some .io else none
+
+def laneErrClass : List String → String
+  | [src, ws] =>
+    let wl : Option (List Req.CancelErr.Wrap) :=
+      if ws == "-" then some [] else ws.toList.mapM fun c =>
+        if c == 'u' then some .urlError else if c == 'n' then some .nothingWritten
+        else if c == 'r' then some .readFromServer else if c == 'b' then some .brokenConn else none
+    match parseSrc src, wl with
+    | some s, some l =>
+      let r := Req.CancelErr.seen l (Req.CancelErr.rel s)
+      let f := fun (b : Bool) => if b then "1" else "0"
+      "c=" ++ f r.isCanceled ++ " d=" ++ f r.isDeadline ++ " t=" ++ f r.timeout
+    | _, _ => "bad-op"
+  | _ => "bad-op"
+
 def lanes : List (String × (List String → String)) := [
+  ("c08errclass", laneErrClass),
+  ("c08h2cleanup", laneH2Cleanup),
+  ("c08h2flow", laneH2Flow),
+  ("c08h2life", laneH2Life),
+  ("c08snap", laneSnap),
+  ("c08pool", lanePool),
   ("c08maperr", laneMapErr),
   ("c08retry", laneRetry),
   ("c08life", laneLife)
